@@ -24,7 +24,7 @@ type Opts struct {
 var AllFeatures = []string{
 	"async", "err", "multi", "bind", "struct", "value", "sets", "lit", "ext", "ctxparam",
 	"composite", "basic", "args", "unneeded", "multi-inj", "multi-file", "dupparam",
-	"generic", "variadic", "variadic-functype", "want-unsupplied", "kalias", "extalias", "value-and-pointer", "rewrap", "struct-both-forms", "alias-basic", "ctx-provider", "implements-error", "adv-pkg-shadowed-by-later-decl", "value-literal", "multi-var-sets", "ext-method-value", "err-alias", "ext-alias-differs-between-files", "chan-of-recv-chan", "ctx-alias", "set-included-twice", "prov-func-var-named-type", "nested-struct-expansion", "local-provider-ext-result", "arg-ext-type", "arg-hidden-ext", "set-ref-paren", "set-decl-paren", "set-alias-var", "elem-paren", "elem-hoisted-var", "inject-spelling", "prov-func-var",
+	"generic", "variadic", "variadic-functype", "want-unsupplied", "kalias", "extalias", "value-and-pointer", "rewrap", "struct-both-forms", "alias-basic", "ctx-provider", "implements-error", "adv-pkg-shadowed-by-later-decl", "value-literal", "multi-var-sets", "ext-method-value", "err-alias", "generic-alias-instance", "ext-alias-differs-between-files", "chan-of-recv-chan", "ctx-alias", "set-included-twice", "prov-func-var-named-type", "nested-struct-expansion", "local-provider-ext-result", "arg-ext-type", "arg-hidden-ext", "set-ref-paren", "set-decl-paren", "set-alias-var", "elem-paren", "elem-hoisted-var", "inject-spelling", "prov-func-var",
 	"async-struct", "ptrrecv", "aiface", "embedded",
 }
 
@@ -65,6 +65,7 @@ type gen struct {
 	pending  map[TypeID]bool
 	roots    int // the first `roots` units take no provided inputs (fork), the last unit joins
 	errAliasDeclared bool
+	boxOfDeclared bool
 	ctxAliasDeclared bool
 	preferWant TypeID // an interface bound to a local provider's external result: a good requested type
 	hiddenArg map[TypeID]bool // argument types of the hidden external package (only ext providers may take them)
@@ -475,6 +476,10 @@ func (g *gen) freshValueType(extOnly bool, label string) TypeID {
 				el = g.addType(Type{Kind: KBasic, Basic: "int"})
 			}
 			g.used["Box"] = true
+			if !extOnly && g.used["BoxOf"] == g.boxOfDeclared && g.want("generic-alias-instance", "genalias", 30) {
+				g.used["BoxOf"], g.boxOfDeclared = true, true
+				return g.addType(Type{Kind: KGeneric, Name: "Box", Elem: el, GenAlias: true})
+			}
 			return g.addType(Type{Kind: KGeneric, Name: "Box", Elem: el})
 		}
 		s := g.newStruct("", false)
